@@ -4,6 +4,7 @@ MAIN_WEAVE = ["./pkg/...", "./cmd/broker/", "./cmd/proxy/", "./internal/..."]
 WORLDS = {
     "w1": {"pkg": "cmd/broker", "harness": "w1", "weave": MAIN_WEAVE},
     "wm": {"pkg": "internal/mcpserver", "harness": "wm", "weave": MAIN_WEAVE},
+    "w2": {"pkg": "pkg/broker", "harness": "w2", "weave": MAIN_WEAVE},
 }
 
 def P(world, **kw):
@@ -35,6 +36,12 @@ PROPS = {
              level_note="broker only at this commit: the proxy half of C11 is covered by the proxy world when present"),
     "C40": P("wm", quick_runs=3000, thorough_runs=100000, quick_budget_s=60, thorough_budget_s=600, required_probes=["c40.tool-call"],
              level_text="generated MCP tool invocations (every tool, generated arguments incl. unknown/empty names) run as simulated tasks against a store that broker-like writers mutate concurrently; oracle = write attribution (no mutation issued by an MCP task) + snapshot equality around isolated calls. Deciding dimension is the generated inputs; the simulator contributes the concurrent store and fault injection"),
+    "C12": P("w2", quick_runs=3000, thorough_runs=200000, quick_budget_s=100, thorough_budget_s=1200, required_probes=["c12.sync-judged", "c12.complete-generation"]),
+    "C13": P("w2", quick_runs=3000, thorough_runs=200000, quick_budget_s=100, thorough_budget_s=1200, required_probes=["c13.stale-request"]),
+    "C14": P("w2", quick_runs=3000, thorough_runs=200000, quick_budget_s=100, thorough_budget_s=1200, required_probes=["c14.leader-success"]),
+    "C15": P("w2", quick_runs=3000, thorough_runs=200000, quick_budget_s=100, thorough_budget_s=1200, required_probes=["c15.failover", "c15.probe"]),
+    "C16": P("w2", quick_runs=3000, thorough_runs=200000, quick_budget_s=100, thorough_budget_s=1200, required_probes=["c16.fetch-judged"]),
+    "C43": P("w2", quick_runs=3000, thorough_runs=200000, quick_budget_s=100, thorough_budget_s=1200, required_probes=["c43.overstay-judged"]),
 }
 
 NA = {
